@@ -162,5 +162,31 @@ theorem convertLoop_spec : ∀ (fs : List (Option Form)) (M : MPSM α) (i : Nat)
         rw [dif_neg hk]
         simp [hki]
 
+theorem MPSM_ext (A B : MPSM α) (h1 : A.L = B.L) (h2 : ∀ k, A.site k = B.site k) (h3 : A.bond = B.bond)
+    (h4 : A.norm = B.norm) (h5 : A.bc = B.bc) : A = B := by
+  obtain ⟨L1, s1, b1, n1, c1⟩ := A
+  obtain ⟨L2, s2, b2, n2, c2⟩ := B
+  simp only at h1 h2 h3 h4 h5
+  have hs : s1 = s2 := funext h2
+  subst h1 h3 h4 h5 hs
+  rfl
+
+
+theorem thetaGuard_go_ok (M : MPSM α) (js : List Int)
+    (h : ∀ j ∈ js, ∃ k, M.siteIdx? j = some k ∧ (M.site k).form ≠ none) :
+    thetaGuard.go M js = none := by
+  induction js with
+  | nil => rfl
+  | cons j rest ih =>
+    obtain ⟨k, hk, hf⟩ := h j (by simp)
+    simp only [thetaGuard.go, hk]
+    have : (M.site k).form.isNone = false := by
+      cases hx : (M.site k).form with
+      | none => exact absurd hx hf
+      | some _ => rfl
+    simp only [this, Bool.false_eq_true, if_false]
+    exact ih (fun j' hj' => h j' (by simp [hj']))
+
+
 end ring
 end TenpyModel.C07Ext
